@@ -4,8 +4,9 @@
   without them.  Core Lean only.  Site inventory: `VModel/PanicSites.md`.
 
   Every function here returns `Except Err α`; `.error (.panic site)` exactly where the Go code reaches
-  a panic (or, for the three unguarded recursions, a recursion no acyclic input can need: the Go
-  runtime then dies of stack exhaustion, which no `recover()` catches).  `VProps/C18.lean` proves
+  a panic (or, for the three recursions over auth events, a recursion deeper than the number of events
+  supplied, i.e. one that does not end: the Go runtime then dies of stack exhaustion, which no
+  `recover()` catches — the case before fix c5e96b7 for cyclic auth_events).  `VProps/C18.lean` proves
 
     (a) refinement: whenever no site fires, the result is exactly that of `VModel.StateRes` (so the
         C10 / C11 theorems about the model transfer unchanged), and
@@ -59,45 +60,51 @@ def forSites (f : Event → Except Err Unit) : List Event → Except Err Unit
     | .ok () => forSites f rest
     | .error x => .error x
 
-/-! ## The three recursions over auth events (S4–S6) -/
+/-! ## The three recursions over auth events (S4–S6)
 
-/-- `fullControlSet(event)` with its shared `visited` map: an auth event found in the conflicted map is
-    recursed into BEFORE it is marked visited.  `none` = the recursion is deeper than `fuel`. -/
+  Until fix c5e96b7 these were unguarded: cyclic `auth_events` (possible in room versions 1 and 2, whose event IDs are
+  chosen by the sender) sent each of them into a recursion that never returned (fatal stack overflow / a hang).
+  They are kept as sites — `none` = the recursion is deeper than the fuel, which stands for "does not return" — and
+  `VProofs/StateResNoPanic.lean` proves the fuel sufficient for EVERY input, cyclic or not. -/
+
+/-- `fullControlSet(event)` with its shared `visited` map: an auth event is marked visited BEFORE it is looked up in
+    the conflicted map and recursed into.  `none` = the recursion is deeper than `fuel`. -/
 def fcs (confMap : List Event) : Nat → List ID → Event → Option (List ID)
   | 0, _, _ => none
   | d + 1, vis, e =>
     e.authEventIDs.foldlM (fun (vis : List ID) id =>
       if vis.contains id then some vis
       else match findByID confMap id with
-        | some ev => (fcs confMap d vis ev).map (fun v => insertID v id)
+        | some ev => fcs confMap d (insertID vis id) ev
         | none => some (insertID vis id)) vis
 
-/-- The loop over the control roots.  A recursion deeper than the number of conflicted events + 1 revisits an
-    event that is still on the stack, and then never ends. -/
+/-- The loop over the control roots.  Every descent marks one more event of the conflicted map, so the recursion is
+    never deeper than the number of conflicted events + 1. -/
 def controlSetSite (confMap : List Event) (roots : List Event) : Except Err Unit :=
   match roots.foldlM (fun vis p => fcs confMap (confMap.length + 2) vis p) [] with
   | some _ => .ok ()
   | none => sitePanic "stateresolutionv2.go:139/307 fullControlSet: unbounded recursion (cyclic auth_events)"
 
 /-- `createPowerLevelMainline.iter`: `StateRes.mainlineIter` with the exhausted recursion explicit -/
-def mainlineIterP (authMap : List Event) : Nat → Event → List Event → Option (List Event)
-  | 0, _, _ => none
-  | fuel + 1, e, acc =>
+def mainlineIterP (authMap : List Event) : Nat → List ID → Event → List Event → Option (List Event)
+  | 0, _, _, _ => none
+  | fuel + 1, path, e, acc =>
     (e.authEventIDs.filterMap (findByID authMap)).foldlM
-      (fun a p => if isPLEvent p then mainlineIterP authMap fuel p a else some a) (e :: acc)
+      (fun a p => if isPLEvent p && !path.contains p.eventID then mainlineIterP authMap fuel (p.eventID :: path) p a else some a)
+      (e :: acc)
 
 def createMainlineP (authMap : List Event) (resolvedPL : Option Event) : Except Err (List Event) :=
   match resolvedPL with
   | none => .ok []
   | some pl =>
-    match mainlineIterP authMap (authMap.length + 2) pl [] with
+    match mainlineIterP authMap (authMap.length + 2) [] pl [] with
     | some m => .ok m
     | none => sitePanic "stateresolutionv2.go:700 createPowerLevelMainline: unbounded recursion (cyclic auth_events)"
 
 /-- `getFirstPowerLevelMainlineEvent.iter`: `StateRes.firstMainline` with the exhausted recursion explicit -/
-def firstMainlineP (authMap mainline : List Event) : Nat → Event → Nat × Nat → Option (Nat × Nat)
-  | 0, _, _ => none
-  | fuel + 1, e, st =>
+def firstMainlineP (authMap mainline : List Event) : Nat → List ID → Event → Nat × Nat → Option (Nat × Nat)
+  | 0, _, _, _ => none
+  | fuel + 1, path, e, st =>
     let rec go (ps : List Event) (st : Nat × Nat) : Option (Nat × Nat) :=
       match ps with
       | [] => some st
@@ -106,13 +113,15 @@ def firstMainlineP (authMap mainline : List Event) : Nat → Event → Nat × Na
         else match mainlinePos mainline p.eventID with
           | some pos => some (pos, st.2)
           | none =>
-            match firstMainlineP authMap mainline fuel p (st.1, st.2 + 1) with
-            | some st' => go rest st'
-            | none => none
+            if path.contains p.eventID then go rest st
+            else
+              match firstMainlineP authMap mainline fuel (p.eventID :: path) p (st.1, st.2 + 1) with
+              | some st' => go rest st'
+              | none => none
     go (e.authEventIDs.filterMap (findByID authMap)) st
 
 def otherKeyP (authMap mainline : List Event) (e : Event) : Except Err OtherKey :=
-  match firstMainlineP authMap mainline (authMap.length + 2) e (0, 0) with
+  match firstMainlineP authMap mainline (authMap.length + 2) [] e (0, 0) with
   | some (pos, steps) => .ok { pos := pos, steps := steps, ts := e.originServerTS, id := e.eventID }
   | none => sitePanic "stateresolutionv2.go:748 getFirstPowerLevelMainlineEvent: unbounded recursion (cyclic auth_events)"
 
